@@ -31,6 +31,9 @@ type vfPausePlan struct {
 	// SilentFirst: the server falls silent at the gate, the pause begins 300 ms later while the client's read is
 	// already waiting, and the server stays silent after the resume: the read must still time out.
 	SilentFirst bool `json:"server_silent_from_before_the_pause,omitempty"`
+	// Resplit: one acknowledgement takes 6.5 s (timeout 20 s), so the sender cuts its buffer size to a sixth and sends the blocks
+	// it had already prepared in pieces over a slow uplink (100 ms per piece); the pause begins while a block is under way.
+	Resplit bool `json:"pause_while_a_block_is_sent_in_pieces,omitempty"`
 }
 
 func vfPauseScenarios() []vfScenario {
@@ -143,6 +146,32 @@ func vfPauseCase(c *vfCtx, si int, sc vfScenario, k int) {
 		if r.Intn(2) == 0 {
 			plan.PauseMs = append(plan.PauseMs, 300)
 		}
+	case k%13 == 7 && sc.Cfg.Dir == "up" && sc.Cfg.Bufsize <= 8192:
+		var acks []int
+		for i := 9; i+6 < len(bs2c); i++ {
+			ok := true
+			for j := i - 9; j <= i+6; j++ {
+				if bs2c[j].Type != "SUCC" || !bytes.Contains(bs2c[j].Full, []byte("/")) {
+					ok = false
+					break
+				}
+			}
+			if ok {
+				acks = append(acks, i)
+			}
+		}
+		if len(acks) == 0 {
+			c.Inconc("no run of 16 data acknowledgements in the baseline transcript")
+			return
+		}
+		class = "resplit"
+		plan.Resplit = true
+		plan.Tau = 20
+		plan.PauseMs = []int{1000}
+		plan.Dir, msgs = "s2c", bs2c
+		plan.Index = acks[r.Intn(vfMin(len(acks), 6))]
+		plan.Type = msgs[plan.Index].Type
+		plan.Before = true
 	case k%13 == 9 && sc.Cfg.Dir == "up" && sc.Cfg.Bufsize <= 8192:
 		// Like a slow, busy uplink with a return link that stalls: the first (short) pause happens a few
 		// acknowledgements before the stall, the second begins 500 ms into the stall and ends - after
@@ -184,7 +213,12 @@ func vfPauseCase(c *vfCtx, si int, sc vfScenario, k int) {
 	c.Replay(map[string]interface{}{"scenario": sc.Name, "cfg": sc.Cfg, "plan": plan})
 	srcTree := vfSnapshot(src)
 
-	s := vfNewSession(c, sc.Cfg)
+	scfg := sc.Cfg
+	if plan.Resplit {
+		scfg.Timeout = plan.Tau
+		tau = plan.Tau
+	}
+	s := vfNewSession(c, scfg)
 	var mu sync.Mutex
 	fired := false
 	type window struct{ p, r int64 }
@@ -268,6 +302,18 @@ func vfPauseCase(c *vfCtx, si int, sc vfScenario, k int) {
 		}
 		fired = true
 		mu.Unlock()
+		if plan.Resplit { // this acknowledgement takes 6.5 s; then the pause begins while the prepared blocks go out in pieces
+			time.Sleep(6500 * time.Millisecond)
+			slowUplink.Store(true)
+			go func() {
+				defer close(cyclesDone)
+				time.Sleep(350 * time.Millisecond)
+				cycles()
+				time.Sleep(300 * time.Millisecond)
+				slowUplink.Store(false)
+			}()
+			return
+		}
 		if plan.Stall { // the return link is held from here on
 			defer close(cyclesDone)
 			time.Sleep(500 * time.Millisecond)
@@ -294,10 +340,14 @@ func vfPauseCase(c *vfCtx, si int, sc vfScenario, k int) {
 	} else {
 		s.srvW().SetGate(gate)
 	}
-	if plan.Stall {
+	if plan.Stall || plan.Resplit {
+		per := 200 * time.Millisecond
+		if plan.Resplit {
+			per = 100 * time.Millisecond
+		}
 		s.cliW().SetGate(func(ev vfGateEvent) {
 			if ev.Before && ev.Type == "DATA" && slowUplink.Load() {
-				time.Sleep(200 * time.Millisecond)
+				time.Sleep(per)
 			}
 		})
 	}
@@ -347,7 +397,7 @@ func vfPauseCase(c *vfCtx, si int, sc vfScenario, k int) {
 		}
 	}
 	// (1) short pauses must complete
-	if (class == "short" || class == "stall") && (so.Kind != "success" || co.Kind != "success") {
+	if (class == "short" || class == "stall" || class == "resplit") && (so.Kind != "success" || co.Kind != "success") {
 		if vfIsTimeoutText(so.Text) || vfIsTimeoutText(co.Text) {
 			c.Slow("c18-short-pause-failed-timeout", "%s: pause(s) of %v ms (timeout %d s) at %s message %d (%s): server=%q client=%q", sc.Name, plan.PauseMs, tau, plan.Dir, plan.Index, plan.Type, vfClip(so.Text), vfClip(co.Text))
 		} else {
@@ -387,6 +437,16 @@ func vfPauseCase(c *vfCtx, si int, sc vfScenario, k int) {
 	}
 	if bufAfter < bufBefore && bufBefore > 0 {
 		c.Obs("buffer_size_lower_after_pause", 1)
+	}
+	if plan.Resplit {
+		c.Obs("resplit_buffer_size_at_pause", bufBefore)
+		nd := 0
+		for _, m := range cmsgs {
+			if m.Type == "DATA" {
+				nd++
+			}
+		}
+		c.Obs("resplit_data_messages", int64(nd))
 	}
 	c.Obs("pause_cycles", int64(len(ws)))
 	c.Obs("elapsed_ms_total", elapsed.Milliseconds())
